@@ -146,6 +146,10 @@ class Polylist(primitive.Primitive):
                 'Index of a polylist with %d entries is not a multiple of its %d inputs'
                 % (self.index.size, self.nindices))
         self.index.shape = (-1, self.nindices)
+        if numpy.sum(self.vcounts) != len(self.index):
+            raise DaeMalformedError(
+                'Vertex counts of a polylist add up to %d but its index has %d vertices'
+                % (numpy.sum(self.vcounts), len(self.index)))
         self.npolygons = len(self.vcounts)
         self.nvertices = numpy.sum(self.vcounts) if len(self.index) > 0 else 0
         self.polyends = numpy.cumsum(self.vcounts)
